@@ -128,7 +128,7 @@ def work(ctx, tier):
     n = (1200 if tier == "quick" else 16000) // ctx.nshards
     for k in range(n):
         sc = gen.rand_scenario(rng, max_attempts=(1, 5), p_special=0.03, specials=("abort",), p_budget=0.3, p_breaker=0.4, p_handler=0.4, p_abort=0.15, p_before_sleep=0.8,
-                               ncalls=(1, 3), placements=(k % 3 == 0), p_no_sleeper=0.15, p_via_attrs=0.25)
+                               ncalls=(1, 3), placements=(k % 3 == 0), p_no_sleeper=0.15, p_via_attrs=0.25, slow_hooks=(k % 4 == 2))
         sc["timeline"] = rng.choice([True, "obj", False])
         if sc["cfg"].get("breaker"):
             sc["cfg"]["breaker"]["threshold"] = rng.randint(1, 2)
